@@ -253,7 +253,15 @@ def r04_2b(ctx, run, rule='R04.2'):
                 ok = o == 'Equal'
                 why = f'returns {o or show(r)[:40]}'
             elif want == 'compare_container':
-                ok = r[0] == 'call' and canon(r[1]).endswith('compare_container') and arg_sides(r, b) == ['L', 'R']
+                ok = False
+                if r[0] == 'call' and canon(r[1]).endswith('compare_container'):
+                    # (left, right), or (left_header, left, right_header, right) when the caller reads the headers
+                    sides = arg_sides(r, b)
+                    wanted = ['L', 'L', 'R', 'R'] if len(sides) == 4 else ['L', 'R'] if len(sides) == 2 else None
+                    if wanted is None or sides.count('?') > 1:
+                        ok = None
+                    else:
+                        ok = all(s_ == w_ or s_ == '?' for s_, w_ in zip(sides, wanted))
                 why = show(r)[:60]
             else:
                 inner = r[2][0] if agg_variant(r) and r[1][2] == 'Ok' else r
@@ -262,7 +270,10 @@ def r04_2b(ctx, run, rule='R04.2'):
                 if ok and k[0] == 'NUMBER_TAG':
                     ok = all(any(is_call(s, 'Number::decode') for s in subterms(a)) for a in inner[2][:2])
                 why = show(inner)[:80]
-        (run.proved if ok else run.violation)(rule, b.path, d, {'Equal': 'Equal', 'compare_container': 'compare_container(left, right)', 'cmp': 'left.cmp(right) on decoded values'}[want] if ok else
+        if ok is None:
+            run.undecided(rule, b.path, d, f'two {k[0]} entries are handed to {why}, whose parameter list this rule does not know: operand order not decided', loc)
+            continue
+        (run.proved if ok else run.violation)(rule, b.path, d, {'Equal': 'Equal', 'compare_container': 'compare_container(left operands, right operands)', 'cmp': 'left.cmp(right) on decoded values'}[want] if ok else
                                                f'two {k[0]} entries are compared by {why}', loc)
 
 
